@@ -153,6 +153,39 @@ theorem parse_tree_equiv_partial (text : Bytes) (n : Nat) (hn : n = 20 ∨ n = 3
   simp only [List.drop_zero] at this
   exact this h
 
+/-- **Exact divergence class of parse_tree.**  The two parsers give different observable results on a
+payload iff the Python parser returns entries and some mode token it met is not canonical.  (In
+particular every other malformation — missing terminators, truncated ids, empty tokens, digits 8/9,
+junk bytes, leading zeros under `strict` — is handled identically.) -/
+theorem parse_tree_diverges_iff (text : Bytes) (n : Nat) (hn : n = 20 ∨ n = 32) (strict : Bool) :
+    obs (parseTreeRs text (some n) strict) ≠ obs (parseTreePy text (some n) strict) ↔
+      (∃ r, parseTreePy text (some n) strict = .ok r) ∧
+      ∃ t ∈ modeTokens n (text.length + 1) text, isCanonical t = false := by
+  constructor
+  · intro hne
+    have hex : ∃ t ∈ modeTokens n (text.length + 1) text, isCanonical t = false := by
+      apply Classical.byContradiction
+      intro hno
+      apply hne
+      apply parse_tree_equiv_partial text n hn strict
+      intro t ht
+      cases hc : isCanonical t with
+      | true => rfl
+      | false => exact absurd ⟨t, ht, hc⟩ hno
+    refine ⟨?_, hex⟩
+    cases hr : parseTreeRs text (some n) strict with
+    | ok r => rw [hr, parse_tree_rs_refines_py text n hn strict r hr] at hne; exact absurd rfl hne
+    | error e =>
+      cases hp : parseTreePy text (some n) strict with
+      | ok r => exact ⟨r, rfl⟩
+      | error e2 => rw [hr, hp] at hne; exact absurd rfl hne
+  · rintro ⟨⟨r, hp⟩, t, ht, hc⟩ heq
+    cases hr : parseTreeRs text (some n) strict with
+    | ok r2 =>
+      have := rsLoop_ok_tokens n strict (text.length + 1) text r2 hr t ht
+      rw [hc] at this; cases this
+    | error e => rw [hr, hp] at heq; cases heq
+
 /-- The loop bounds in the models are never reached: both parsers are total functions of the payload. -/
 theorem parse_tree_fuel (text : Bytes) (n : Nat) (hn : n = 20 ∨ n = 32) (strict : Bool) :
     parseTreeRs text (some n) strict ≠ .error .fuel ∧ parseTreePy text (some n) strict ≠ .error .fuel := by
@@ -207,6 +240,13 @@ theorem tree_order_equiv (a b : TreeEntry) (ha : nameOk a.name) (hb : nameOk b.n
   · simp only [pyKeyEntry, pyIsDir_ok hma, pyKeyOf, e1]
   · simp only [pyKeyEntry, pyIsDir_ok hmb, pyKeyOf, e1]
   · exact cmp_suffix_eq _ _ _ _ ha hb
+
+/-- Non-vacuity: directory `a` against file `a.` and file `a0` (`.` < `/` < `0`): the hypotheses hold and the
+order is the one git uses. -/
+example : nameOk [97] ∧ nameOk [97, 46] ∧ nameOk [97, 48] ∧
+    rsCmpWithSuffix (16384, [97]) (33188, [97, 46]) = .gt ∧ rsCmpWithSuffix (16384, [97]) (33188, [97, 48]) = .lt ∧
+    rsCmpWithSuffix (33188, [97]) (33188, [97, 46]) = .lt := by
+  refine ⟨by simp [nameOk], by simp [nameOk], by simp [nameOk], by decide, by decide, by decide⟩
 
 def SortedTreeItemsEquivStatement : Prop :=
   ∀ (es : List TreeEntry) (nameOrder : Bool),
